@@ -231,3 +231,13 @@ mut('cache key formats coordinates with 6 significant digits', 'C17',
                                '|' + _k(elems_trial)).encode()).hexdigest()'''))
 mut('residual no longer registers the point tables of new elements', 'C03',
     (EE, '        SL._init_elems(elems)\n', '        pass\n'), runs=400)
+
+mut('grading never refines deep time-marked leaves (endless sweeps)', 'C19',
+    (MESH, '''            for elem in marked_time:
+                self.refine_time(elem)''',
+     '''            for elem in marked_time:
+                if elem.level_time < 3: self.refine_time(elem)'''))
+mut('targeting keeps scanning the cell it already refined (endless loop)',
+    'C16',
+    (IM, '            children = self.refine(parent)',
+     '            self.refine(parent); children = [parent]'))
